@@ -15,6 +15,9 @@ ORACLE on PAIRS of real implementation runs built from one scenario:
 
 A case is  {"sc": <scenario>, "var": {"stations": perm, "constraints": perm, "sessions": perm,
             "recomputes": perm, "shift": k}, "exact": bool, "ties": bool, "hashseeds": [..] | absent}
+<sched> of a sorted algorithm may carry "opts": {"uninterrupted": true, "estimate": true} (uninterrupted_charging; the stateful
+SimpleRampdown estimator).  Aborted runs (the `abort` stream) are compared AT THE ABORT: fully, or — when update_pilots
+raised under a changed registration order — on everything update_pilots does not write.
 <scenario> is the simcase layout (core/simcase.py) with "constraints": [{"name", "coeffs": [[station, c]…], "limit"}]
 instead of the single aggregate "constraint".  Scheduler types beyond simcase's: every sort order of
 acnportal.algorithms — "fcfs" | "lcfs" | "edf" | "llf" | "lrpt" (SortedSchedulingAlgo) and "rr" (= "rr:fcfs") |
@@ -674,6 +677,60 @@ def corpus():
         sc4["sched"] = {"type": algo}
         out.append({"sc": sc4, "var": {"stations": perm, "constraints": [2, 0, 1], "sessions": [5, 4, 3, 2, 1, 0], "recomputes": [], "shift": 7},
                     "exact": False, "ties": False})
+    # ---- the relations proved in AcnProofs/C10Stations / C10Sessions / C10Rampdown / C10Shift, on every run ----
+    bt = {"two": False, "cap": 60, "init": 5, "maxp": 7}
+
+    def ss(n, s_, a_, d_, q, b=None, est=None):
+        return {"session": n, "station": s_, "arrival": a_, "departure": d_, "requested": q, "batt": dict(b or bt), "est": est}
+    # (i) update_pilots raises in the MIDDLE of its station loop (B refuses 3.3 A) while A and C are sent non-zero
+    # pilots: every registration order, the states at the abort compared on what update_pilots does not write
+    ab = {"stations": [st("A"), st("B", {"t": "finite", "rates": [8, 16, 24, 32]}), st("C", {"t": "deadband", "db": 6, "max": 32}, 30)],
+          "constraints": [{"name": "all", "coeffs": [["A", 1], ["B", 1], ["C", 1]], "limit": 64.7}],
+          "sessions": [ss("p", "A", 0, 4, 6.0), ss("q", "B", 0, 5, 6.0), ss("r", "C", 1, 6, 6.0)],
+          "recomputes": [], "period": 5, "max_recompute": 1, "noise": [0.0],
+          "sched": {"type": "scripted", "default": [["A", [16.0]], ["B", [16.0]], ["C", [10.0]]],
+                    "script": [{"t": 2, "sched": [["C", [12.0]], ["B", [3.3]], ["A", [20.0]]]}]},
+          "targeted": "abort", "abort": "invalid_rate"}
+    out.append({"sc": ab, "var": {"stations": [2, 0, 1], "constraints": [0], "sessions": [2, 0, 1], "recomputes": [], "shift": 5},
+                "exact": False, "ties": False, "allperms": True})
+    # ... and the scheduler itself raising in period 2 (fully related states at the abort)
+    ab2 = copy.deepcopy(ab)
+    ab2["sched"]["script"] = [{"t": 2, "fail": True}]
+    ab2["abort"] = "sched_fail"
+    out.append({"sc": ab2, "var": {"stations": [1, 2, 0], "constraints": [0], "sessions": [1, 2, 0], "recomputes": [], "shift": 2},
+                "exact": False, "ties": False, "allperms": True})
+    # (ii) a REAL algorithm aborted by update_pilots: DeadbandEVSE behind a 4 A limit is handed 4 A
+    db = {"stations": [st("A", {"t": "deadband", "db": 6, "max": 32}), st("B", {"t": "finite", "rates": [8, 16]})],
+          "constraints": [{"name": "a", "coeffs": [["A", 1]], "limit": 4.0}],
+          "sessions": [ss("x", "A", 1, 4, 10.0), ss("y", "B", 0, 6, 10.0)],
+          "recomputes": [], "period": 5, "max_recompute": 1, "noise": [0.0], "sched": {"type": "edf"},
+          "targeted": "abort", "abort": "deadband"}
+    out.append({"sc": db, "var": {"stations": [1, 0], "constraints": [0], "sessions": [1, 0], "recomputes": [], "shift": 3},
+                "exact": False, "ties": False, "allperms": True})
+    # (iii) the stateful rampdown estimator: car x cannot take more than 3 kW (14.4 A), is offered 32 A, and is capped
+    # from then on — which frees current for y; first event in period 1, so the shift relation is judged as well
+    rd = {"stations": [st("A"), st("B", {"t": "finite", "rates": [8, 16, 24, 32]})],
+          "constraints": [{"name": "ab", "coeffs": [["A", 1], ["B", 1]], "limit": 40.3}],
+          "sessions": [ss("x", "A", 1, 9, 8.0, {"two": False, "cap": 60, "init": 5, "maxp": 3}),
+                       ss("y", "B", 2, 11, 12.0, {"two": False, "cap": 60, "init": 5, "maxp": 7})],
+          "recomputes": [], "period": 5, "max_recompute": 1, "noise": [0.0]}
+    for algo, opts in (("edf", {"estimate": True}), ("rr:llf", {"estimate": True}), ("lrpt", {"estimate": True, "uninterrupted": True})):
+        sc5 = copy.deepcopy(rd)
+        sc5["sched"] = {"type": algo, "opts": opts}
+        out.append({"sc": sc5, "var": {"stations": [1, 0], "constraints": [0], "sessions": [1, 0], "recomputes": [], "shift": 3},
+                    "exact": False, "ties": False, "allperms": True})
+    # (iv) uninterrupted_charging with a TIE in the main key (three cars arrive together, FCFS) but distinct remaining
+    # times, under a limit that cannot carry three minimum pilots: who keeps its minimum is decided by the
+    # remaining-time order in EVERY registration order (run_equivariant_stations_sorted_uninterrupted)
+    un = {"stations": [st(i, {"t": "finite", "rates": [8, 16, 24, 32]}) for i in ("S2", "S10", "S1")],
+          "constraints": [{"name": "agg", "coeffs": [["S1", 1], ["S2", 1], ["S10", 1]], "limit": 20.3}],
+          "sessions": [ss("a", "S1", 0, 9, 9.0), ss("b", "S2", 0, 5, 9.0), ss("c", "S10", 0, 7, 9.0)],
+          "recomputes": [], "period": 5, "max_recompute": 1, "noise": [0.0], "targeted": "tight"}
+    for algo in ("fcfs", "rr", "lcfs"):
+        sc6 = copy.deepcopy(un)
+        sc6["sched"] = {"type": algo, "opts": {"uninterrupted": True}}
+        out.append({"sc": sc6, "var": {"stations": [2, 0, 1], "constraints": [0], "sessions": [1, 2, 0], "recomputes": [], "shift": 4},
+                    "exact": False, "ties": False, "allperms": True})
     return out
 
 
